@@ -31,8 +31,7 @@ def drive(ctx):
     for zn in my:
         zr = {"n": zn, "fo": 0}
         trs = zone_transitions(ctx, zn)
-        if q:
-            trs = pick(rnd, trs, 16 if full else 4)
+        trs = pick(rnd, trs, (16 if full else 4) if q else 48)       # thorough: 48 transitions of every zone
         for (sec, b, a) in trs:
             ps = probes(sec, b, a)
             deep = pick(rnd, range(len(ps)), 1 if q else 4)
